@@ -74,7 +74,9 @@ CHECKS = {
             'with 2 node / 2 edge colours, both searches, symmetry off and on; soundness, exactly-once, one representative per '
             'class and maximum-common-subgraph coverage are decided by TLC from the definitions, not by a second matcher.',
             'Trusts TLC. Equality is equality of an integer colour (transitive). The empty answer when nothing is common is '
-            'not constrained.',
+            'not constrained. Real shipped blocks and shared-cache histories beyond ~7 nodes are judged against a certificate (complete '
+            'lists from networkx VF2) that TLC verifies clause by clause; its completeness is trusted. Known finding '
+            'C06-ring5-two-leaves.',
             'DESIGN.md section 5 / C06'),
     'C05': ('model_checking',
             'TLA+ spec Links (order relation operational = documented matrix, checked exhaustively by TLC and replayed into '
